@@ -272,6 +272,28 @@ pub fn c02_streams(tier: Tier) -> Vec<(SvcCfg, Vec<u8>)> {
         s.extend_from_slice(&f[..f.len() / 2]);
         v.push((cfg.clone(), s));
     }
+    // multi-byte UTF-8 inside requests: every cut point inside a character is a segmentation too
+    {
+        let a = cfg.scripted[0].clone();
+        let mut s = frame(&request(
+            &format!("{}.Echo", a),
+            Some(json!({"token": "s-0", "text": "é-ß-€-\u{1F600}-z", "ключ": ["值", "\u{10FFFF}"]})),
+            Flags::NONE,
+        ));
+        s.extend(frame(&request(&format!("{}.Ping", PING), Some(json!({"ping": "π∞\u{1F980}"})), Flags::NONE)));
+        v.push((cfg.clone(), s));
+    }
+    // ping-style upgraded protocol: batches of lines ending in "End", the handler returns per batch
+    for generated in [false, true] {
+        for payload in ["a\nEnd\n", "a\nEnd\nb\nEnd\n", "a\nb\nEnd\nc\nEnd\npartial", "End\nEnd\nx\n"] {
+            let mut c = cfg.clone();
+            c.upgrade_mode = 3;
+            let mut s = alphabet::stream_of(&c, &[Kind(Base::Echo, Flags::NONE)], "u");
+            s.extend(frame(&alphabet::upgrade_request(&c, generated, "up")));
+            s.extend_from_slice(payload.as_bytes());
+            v.push((c, s));
+        }
+    }
     // upgrade request followed directly by 0..300 payload bytes, both handler shapes, both kinds of interface
     for mode in [1u8, 2u8] {
         for generated in [false, true] {
